@@ -27,7 +27,7 @@ import (
 )
 
 type histStep struct {
-	Op     string `json:"op"`     // open | setm | route | close | sleep
+	Op     string `json:"op"`     // open | setm | route | close | sleep | srv
 	Who    string `json:"who"`    // open: none | half | L | T | S | X
 	Mid    string `json:"mid"`    // open: none | m1 | m2
 	Secret string `json:"secret"` // open: none | right | wrong
@@ -92,17 +92,24 @@ func runHist(w *world, in histIn) (out histOut) {
 		must(err)
 		return m
 	}
-	keys := map[string]string{"m1": fmt.Sprintf("hk%d-one", base), "m2": fmt.Sprintf("hk%d-two", base)}
-	maps := map[string]*models.PortMapping{"m1": mk(w.L.id, w.T.id, keys["m1"]), "m2": mk(w.S.id, w.X.id, keys["m2"])}
-	mstate := map[string]string{"m1": "active", "m2": "active"}
-	idOf := map[string]string{maps["m1"].ID: "m1", maps["m2"].ID: "m2"}
+	keys := map[string]string{"m1": fmt.Sprintf("hk%d-one", base), "m2": fmt.Sprintf("hk%d-two", base), "m3": fmt.Sprintf("hk%d-srv", base)}
+	// m3: a SERVER-SIDE listener (stored listening client id 0), target client T
+	maps := map[string]*models.PortMapping{"m1": mk(w.L.id, w.T.id, keys["m1"]), "m2": mk(w.S.id, w.X.id, keys["m2"]), "m3": mk(0, w.T.id, keys["m3"])}
+	mstate := map[string]string{"m1": "active", "m2": "active", "m3": "active"}
+	idOf := map[string]string{maps["m1"].ID: "m1", maps["m2"].ID: "m2", maps["m3"].ID: "m3"}
 	routeM := map[int]string{} // mapping of the routing record the harness ("another node") registered per tunnel
 	fwdM := map[int]string{}   // mapping of the routing record at the moment a request was forwarded on that tunnel id
 	clients := map[string]client{"L": w.L, "T": w.T, "S": w.S, "X": w.X, "half": w.S}
-	listenOf := map[string]string{"m1": "L", "m2": "S"}
-	targetOf := map[string]string{"m1": "T", "m2": "X"}
+	listenOf := map[string]string{"m1": "L", "m2": "S", "m3": "-"}
+	targetOf := map[string]string{"m1": "T", "m2": "X", "m3": "T"}
 
 	var opens []*hOpen
+	var srvFakes []*fakeConn
+	defer func() {
+		for _, f := range srvFakes {
+			f.Close()
+		}
+	}()
 	var peers []*net.TCPConn
 	fail := func(step int, class, msg string) {
 		if out.PropOK {
@@ -139,7 +146,7 @@ func runHist(w *world, in histIn) (out histOut) {
 				return o.step + 1
 			}
 		}
-		return 9999
+		return 999 // not a connection of this history: the server's own source of a StartServerTunnel bridge
 	}
 	// the entitlement of an attached request with respect to the mapping the tunnel really belongs to
 	checkAttach := func(step int, o *hOpen, tunnelMapping string, how string) {
@@ -232,6 +239,8 @@ func runHist(w *world, in histIn) (out histOut) {
 				mid = 1
 			} else if idOf[b.GetMappingID()] == "m2" {
 				mid = 2
+			} else if idOf[b.GetMappingID()] == "m3" {
+				mid = 3
 			}
 			s = append(s, 1, mid, byStream(b.GetSourceTunnelConn()), byStream(b.GetTargetTunnelConn()))
 		}
@@ -290,6 +299,14 @@ func runHist(w *world, in histIn) (out histOut) {
 					SecretKey: keys[st.M], SourceNodeID: otherNode, TargetHost: "127.0.0.1", TargetPort: 18001}))
 				routeM[st.Tun] = st.M
 			}
+		case "srv":
+			// the server itself starts a tunnel on the server-side-listener mapping m3 (the tunnel id is chosen by the server)
+			w.seq++
+			sf := newFakeConn("198.51.99.8", 30000+w.seq%20000)
+			srvFakes = append(srvFakes, sf)
+			id, err := w.fx.Session.StartServerTunnel(maps["m3"].ID, sf)
+			must(err)
+			tunID[st.Tun] = id
 		case "close":
 			had := routeVisible(st.Tun) && w.fx.Session.VerifBridge(tunID[st.Tun]) != nil
 			if fb := w.fx.Session.VerifForgetBridge(tunID[st.Tun]); fb != nil {
@@ -326,7 +343,7 @@ func runHist(w *world, in histIn) (out histOut) {
 			}
 			req := &packet.TunnelOpenRequest{TunnelID: tunID[st.Tun]}
 			named := ""
-			if st.Mid == "m1" || st.Mid == "m2" {
+			if st.Mid == "m1" || st.Mid == "m2" || st.Mid == "m3" {
 				named = st.Mid
 				req.MappingID = maps[named].ID
 			}
@@ -335,6 +352,8 @@ func runHist(w *world, in histIn) (out histOut) {
 				right, other := keys["m1"], keys["m2"]
 				if named == "m2" {
 					right, other = keys["m2"], keys["m1"]
+				} else if named == "m3" {
+					right = keys["m3"]
 				}
 				req.SecretKey = secretFor(st.Secret, right, other)
 			}
@@ -445,7 +464,7 @@ func runHist(w *world, in histIn) (out histOut) {
 			continue
 		}
 		si := byStream(b.GetSourceTunnelConn())
-		if si == 0 || si == 9999 {
+		if si == 0 || si == 999 {
 			continue
 		}
 		marker := []byte(fmt.Sprintf("SECRET-FROM-SOURCE-%s", tunID[k]))
